@@ -225,4 +225,53 @@ pub fn run(ctx: &mut Ctx) {
             ctx.sample(|| json!({"input": s}));
         }
     }
+    // ---- Space D: digit runs of every length 1..=10 (the canonical rendering has 7) with ONE or TWO positions
+    // replaced by every ASCII byte and by multi-byte characters, Unicode numerals included (u32::from_str only
+    // knows ASCII digits): a parser with a special path for some length, or with a wider notion of "digit"
+    // (the 0x30..0x3F column, char::is_numeric) differs from the reference only here
+    ctx.space("strings/deviations-from-digit-runs", "prefixes {HP:, XYZ, 3-byte euro sign} x digit runs of length 1..=10 x every single position replaced by each of the 128 ASCII bytes and 12 multi-byte characters (6 of them Unicode numerals), and every pair of positions replaced by a pair from {: ; < = > ? / + - space, arabic-indic 3, superscript 2}; one case per (prefix, length)");
+    let specials: [&str; 12] = ["\u{663}", "\u{b2}", "\u{2167}", "\u{ff11}", "\u{1d7d9}", "\u{bef}", "\u{e9}", "\u{20ac}", "\u{1f600}", "\u{a0}", "\u{2007}", "\u{660}"];
+    let pair_alpha: [&str; 12] = [":", ";", "<", "=", ">", "?", "/", "+", "-", " ", "\u{663}", "\u{b2}"];
+    for prefix in ["HP:", "XYZ", "\u{20ac}"] {
+        for len in 1..=10usize {
+            if !ctx.take() {
+                continue;
+            }
+            ctx.state();
+            let digits: Vec<String> = (0..len).map(|i| ((i * 7 + 1) % 10).to_string()).collect();
+            let mut n = 0u64;
+            for pos in 0..len {
+                for b in 0u8..128 {
+                    let mut parts = digits.clone();
+                    parts[pos] = (b as char).to_string();
+                    check_string(ctx, &format!("{prefix}{}", parts.concat()));
+                    n += 1;
+                }
+                for sp in specials {
+                    let mut parts = digits.clone();
+                    parts[pos] = sp.to_string();
+                    check_string(ctx, &format!("{prefix}{}", parts.concat()));
+                    n += 1;
+                }
+                for pos2 in pos + 1..len {
+                    for x in pair_alpha {
+                        for y in pair_alpha {
+                            let mut parts = digits.clone();
+                            parts[pos] = x.to_string();
+                            parts[pos2] = y.to_string();
+                            check_string(ctx, &format!("{prefix}{}", parts.concat()));
+                            n += 1;
+                        }
+                    }
+                }
+            }
+            // all-zero and all-nine runs of this length, and the run made of one repeated non-digit
+            for fill in ["0", "9", ":", "?", "\u{663}"] {
+                check_string(ctx, &format!("{prefix}{}", fill.repeat(len)));
+                n += 1;
+            }
+            ctx.nontrivials(n);
+            ctx.sample(|| json!({"prefix": prefix, "digits": digits.concat(), "strings": n}));
+        }
+    }
 }
